@@ -41,4 +41,8 @@ CHECKS = {
         technique="property-based testing: Hypothesis-generated operation histories over a shared buffer pool and producer/consumer chains; invariant over the emitted stream under an explicit execution model (two queues, bounded outstanding counts, waits, block-job dependency) with exact byte footprints; same invariant over streams of generated compiled networks",
         text="The emitted words are decoded and replayed on a model of the kernel and DMA queues: for every operation issued, every operation that may still be in flight (given the KERNEL_WAIT/DMA_WAIT actually present and the outstanding limits) must be free of RAW/WAR/WAW byte overlap across queues, and the programmed BLOCKDEP must not let a consumer job start while a producer block job it reads from is unfinished.",
         note="trusted base: execution model H7-H9 (DESIGN.md §4), lib/footprint.py, lib/hazard.py, lib/csdec.py; job traversal order as documented in the repository, not a silicon trace"),
+    "C10": dict(
+        technique="property-based testing: exhaustive small-scope enumeration + Hypothesis geometries of striped operators against independent receptive-field arithmetic (reference model); stripe sequences decoded from streams of generated compiled networks",
+        text="For every (input height, kernel, stride, dilation, padding kind, stripe height) in the small scope and random larger ones, the IFM start row, the rows the hardware derives and the pads produced by Vela's own padding/skirt, Box.transform_with_strides_and_skirt and create_padding are compared per stripe with the receptive field of the stripe's output rows clipped to the input.",
+        note="trusted base: hardware row-derivation rule H2; receptive-field arithmetic in lib/props/c10.py"),
 }
